@@ -61,6 +61,22 @@ fn variants(b: &Board, p: &Pos, sel: u16, kind: u8) -> Vec<(Board, &'static str)
             out.push((nb, "EP file set to another file"));
         }
     }
+    // a right moved to another rook on the same wing (Chess960: two rooks on one side of the king)
+    for side in 0..2 {
+        for wing in 0..2 {
+            if let Some(f) = st.rights[side][wing] {
+                for g in 0..8u8 {
+                    if g != f {
+                        let mut s = st.clone();
+                        s.rights[side][wing] = Some(g);
+                        if let Some(nb) = build(&s) {
+                            out.push((nb, "right moved to another rook"));
+                        }
+                    }
+                }
+            }
+        }
+    }
     // one feature changed
     let non_kings: Vec<u8> = (0..64u8).filter(|&s| matches!(p.board[s as usize], Some((k, _)) if k != Kind::K)).collect();
     let mut s = st.clone();
@@ -107,11 +123,11 @@ fn variants(b: &Board, p: &Pos, sel: u16, kind: u8) -> Vec<(Board, &'static str)
 
 pub fn run(ctx: &Ctx) -> Report {
     let mut rep = Report::new(ctx);
-    rep.rule = "Pairs: a board A from the generators (heavy weight on en-passant motifs: capturing pawn present/absent/pinned on file, rank or diagonal, capture exposing the king along the rank, mover in check with the capture being or not being a remedy, a bishop/queen/knight/king standing where a capturing pawn would stand) paired with: A with other clocks; A with the EP file cleared; A with the EP file moved to every other file the library accepts; A with one piece removed/retyped/added, a right toggled or the side flipped; an unrelated board; and triples (A, clocks, EP-cleared) for transitivity. Oracle: same placement, side and rights by the reference, and the reference's 'a legal EP capture exists, on file f' agrees; also reflexive and symmetric on every pair. Non-trivial = at least one board of the pair has an EP file set; distinct by hash of both texts.".into();
+    rep.rule = "Pairs: a board A from the generators (heavy weight on en-passant motifs: capturing pawn present/absent/pinned on file, rank or diagonal, capture exposing the king along the rank, mover in check with the capture being or not being a remedy, a bishop/queen/knight/king standing where a capturing pawn would stand) paired with: A with other clocks; A with the EP file cleared; A with the EP file moved to every other file the library accepts; A with one piece removed/retyped/added, a right toggled or the side flipped; A with a right moved to another own rook on the same wing (Chess960); an unrelated board; and triples (A, clocks, EP-cleared) for transitivity. Oracle: same placement, side and rights by the reference, and the reference's 'a legal EP capture exists, on file f' agrees; also reflexive and symmetric on every pair. Non-trivial = at least one board of the pair has an EP file set; distinct by hash of both texts.".into();
     rep.assumptions = vec!["reference legal_ep_file(): make the capture, test the own king".into()];
     rep.required_classes = vec![
         "ep-set:capture-legal", "ep-set:no-capturer", "ep-set:capturer-illegal", "ep-set:non-pawn-on-capture-square", "pair:ep-cleared", "pair:ep-moved", "pair:other-clocks",
-        "pair:one-feature-changed", "pair:unrelated", "expected-same", "expected-different",
+        "pair:one-feature-changed", "pair:unrelated", "pair:right-moved-to-another-rook", "expected-same", "expected-different",
     ];
     rep.add(run_prop(
         ctx,
@@ -161,6 +177,7 @@ pub fn run(ctx: &Ctx) -> Report {
                         "EP file cleared" => "pair:ep-cleared",
                         "EP file set to another file" => "pair:ep-moved",
                         "one feature changed" => "pair:one-feature-changed",
+                        "right moved to another rook" => "pair:right-moved-to-another-rook",
                         _ => "pair:unrelated",
                     });
                     let want = ref_same(p, &po);
